@@ -23,10 +23,11 @@ type SpecDB struct {
 	files     []string
 	hfuncs    map[string]*HFuncDef
 	hpkg      map[string]string // hfunc -> package name of the file declaring it
+	fnTypes   map[string]string // "pkgname.Type" -> apply UF name (functional function types)
 }
 
 func newSpecDB() *SpecDB {
-	return &SpecDB{contracts: map[string]*Contract{}, macros: map[string]*MacroDef{}, ufuncs: map[string]*UFuncDef{}, hfuncs: map[string]*HFuncDef{}, hpkg: map[string]string{}}
+	return &SpecDB{contracts: map[string]*Contract{}, macros: map[string]*MacroDef{}, ufuncs: map[string]*UFuncDef{}, hfuncs: map[string]*HFuncDef{}, hpkg: map[string]string{}, fnTypes: map[string]string{}}
 }
 
 func (db *SpecDB) add(sf *SpecFile, prefix string, file string) error {
@@ -61,6 +62,9 @@ func (db *SpecDB) add(sf *SpecFile, prefix string, file string) error {
 		db.hfuncs[h.Name] = h
 		db.hpkg[h.Name] = prefix
 	}
+	for _, ft := range sf.FnTypes {
+		db.fnTypes[prefix+"."+ft] = "apply_" + smtName(prefix+"_"+ft)
+	}
 	db.axioms = append(db.axioms, sf.Axioms...)
 	db.lemmas = append(db.lemmas, sf.Lemmas...)
 	db.files = append(db.files, file)
@@ -91,6 +95,7 @@ type SpecEnv struct {
 	loop *LoopInfo
 	self string // name of function (diagnostics)
 	free map[string]freeBinding
+	qdepth int // nesting depth of quantifiers (bound variable names are unique per depth)
 }
 
 type specError struct{ msg string }
@@ -178,10 +183,22 @@ func (env *SpecEnv) eval(e *Expr) SVal {
 			if s == "" {
 				s = "Int"
 			}
-			bv := BoundVar("q_"+v.Name, s)
+			var gt types.Type
+			if !(s == "Int" || s == "Bool" || strings.HasPrefix(s, "(") || uninterpSorts[s] || dtTab[s] != nil) {
+				t, err := env.x.w.parseGoType(s, env.pkg)
+				if err != nil {
+					env.errf(e, "quantified variable %s: %v", v.Name, err)
+				}
+				gt = t
+				s = sortOf(t)
+			} else if t, ok := goTypeOfSort[s]; ok {
+				gt = t
+			}
+			bv := BoundVar(fmt.Sprintf("q_%s_%d", v.Name, env.qdepth), s)
 			bound = append(bound, bv)
-			n = n.bind(v.Name, SVal{T: bv})
+			n = n.bind(v.Name, SVal{T: bv, GT: gt})
 		}
+		n.qdepth = env.qdepth + 1
 		body := n.boolean(e.Args[0])
 		var pats [][]*Term
 		for _, p := range e.Pats {
@@ -700,7 +717,7 @@ func (env *SpecEnv) evalCall(e *Expr) SVal {
 			env.errf(e, "contents() of a non-slice")
 		}
 		et := a.GT.Underlying().(*types.Slice).Elem()
-		key, hs := elemHeapKey(sortOf(et))
+		key, hs := elemHeapKey(et)
 		row := Select(env.st.H(key, hs), sArr(a.T))
 		return SVal{T: normArray(row, sOff(a.T), sLen(a.T), et)}
 	case "trim":
@@ -723,6 +740,15 @@ func (env *SpecEnv) evalCall(e *Expr) SVal {
 	}
 	if h, ok := env.x.specs.hfuncs[e.Name]; ok {
 		return env.callHFunc(h, e)
+	}
+	if ft := env.x.fnTypeByUF(e.Name); ft != nil {
+		var args []*Term
+		for _, a := range e.Args {
+			args = append(args, env.eval(a).T)
+		}
+		sig := ft.Underlying().(*types.Signature)
+		rt := sig.Results().At(0).Type()
+		return SVal{T: UF(e.Name, sortOf(rt), args...), GT: rt}
 	}
 	if u, ok := env.x.specs.ufuncs[e.Name]; ok {
 		if len(u.Params) != len(e.Args) {
@@ -857,8 +883,9 @@ func (env *SpecEnv) callHFunc(h *HFuncDef, e *Expr) SVal {
 		args = append(args, env.st.H(k, hs))
 		psorts = append(psorts, hs)
 	}
-	declare(h.Name, psorts, h.Ret)
-	return SVal{T: App(h.Name, h.Ret, args...)}
+	rs, rgt := env.hParamSort(h, HParam{"result", h.Ret})
+	declare(h.Name, psorts, rs)
+	return SVal{T: App(h.Name, rs, args...), GT: rgt}
 }
 
 // hfuncTemplate evaluates the body of h once over bound parameters and bound heap arrays.
@@ -893,8 +920,8 @@ func (x *Exec) hfuncTemplate(h *HFuncDef) *hTemplate {
 	x.dry++
 	v := env.eval(h.Body)
 	x.dry--
-	if v.T == nil || v.T.Sort != h.Ret {
-		panic(unsupported{fmt.Sprintf("hfunc %s: body has sort %s, want %s", h.Name, sortName(v), h.Ret)})
+	if rs, _ := env.hParamSort(h, HParam{"result", h.Ret}); v.T == nil || v.T.Sort != rs {
+		panic(unsupported{fmt.Sprintf("hfunc %s: body has sort %s, want %s", h.Name, sortName(v), rs)})
 	}
 	t.body = v.T
 	return t
